@@ -99,13 +99,14 @@ bool Monitor::wait(int64 timeout)
   ts.tv_nsec %= 1000000000;
   for(;;)
   {
-    if(pthread_cond_timedwait((pthread_cond_t*)cdata, (pthread_mutex_t*)mdata, &ts) != 0)
-      return false;
+    int err = pthread_cond_timedwait((pthread_cond_t*)cdata, (pthread_mutex_t*)mdata, &ts);
     if(signaled)
     {
       signaled = false;
       return true;
     }
+    if(err != 0)
+      return false;
   }
 #endif
 }
